@@ -359,6 +359,11 @@ def run(facts, rep, ctx):
             elif not rc["terminator"] or not rc["reads_per_unit"]:
                 rep.inconc(R1, "%s: how the reader %s detects the terminator was not recognised (%s zero test(s), %s read(s) per unit)" % (
                     key, rn.rsplit("::", 1)[-1], rc["terminator"], rc["reads_per_unit"]))
+            elif wc["terminator"] == rc["terminator"] and rc["reads_per_unit"] < rc["terminator"]:
+                # fewer reads than zero tests on the one iteration explored: part of the unit is carried over from an
+                # earlier iteration (a state machine); unit framing is not decided by this rule
+                rep.inconc(R1, "%s: the reader %s tests %s byte(s) against zero but reads %s per iteration: unit framing carried across iterations is not decided" % (
+                    key, rn.rsplit("::", 1)[-1], rc["terminator"], rc["reads_per_unit"]))
             elif wc["terminator"] != rc["terminator"] or (rc["reads_per_unit"] and rc["terminator"] != rc["reads_per_unit"]):
                 rep.violation(R1, par.name, "terminator:" + key, "%s: writer appends %s zero byte(s), reader stops on %s zero byte(s) of %s read per unit" % (key, wc["terminator"], rc["terminator"], rc["reads_per_unit"]), "%s:%s" % (par.file, par.line))
             else:
